@@ -239,6 +239,9 @@ func (e *Exec) callStatic(st *State, fr *Frame, fn *ssa.Function, bindings, args
 // havoc the frame, assume ensures.
 func (e *Exec) byContract(st *State, fr *Frame, key string, ct *Contract, names []string, args []Value, rt types.Type, instr ssa.Instruction) Value {
 	e.byContr[key] = true
+	if len(ct.Ghosts) > 0 {
+		e.unsupported("call by contract of " + key + " which has ghost parameters")
+	}
 	e.ncalls++
 	callTag := fmt.Sprintf("c%d", e.ncalls)
 	env := &Env{e: e, st: st, old: st, vars: map[string]Value{}, pos: true, pkgName: ct.Pkg}
